@@ -103,7 +103,10 @@ def run(ctx):
                 "[pfm*(1-1e-4), pfm*(1+1e-6)] with pfm the first-solve objective, and == min consumed_kcals variable (1e-6); "
                 "round 2: 2/3 feed + 1/3 biofuel >= pfm*(1-1e-4); CSV cells == returned arrays exactly (float parse), header and "
                 "row count; immediate + new stored == eaten (1e-9 of the series scale) in billions fed and in the saved columns, "
-                "new stored >= 0; stored series within half a unit of the last kept decimal.  non-trivial round = >= 4 foods "
+                "new stored >= 0; stored series within half a unit of the last kept decimal; hand-off link: "
+                "in_units_bil_kcals...(feed_sum_kcals_equivalent / biofuels_sum_kcals_equivalent)[m] == sum of the captured feed / "
+                "biofuel variables (stored + crops + seaweed*SEAWEED_KCALS + cell sugar + SCP; 1e-9 of the series scale) and, in "
+                "rounds 1/3, == the round's charge (1e-6).  non-trivial round = >= 4 foods "
                 "contribute; distinct = hash of (country, option, round)")
     ctx.trusted += ["translator harness/gen_units.py (unit multipliers)",
                     "hand model coq/Model/Report.v of extract_results.py / interpret_results.py (kcals), tied by correspondence",
@@ -146,6 +149,24 @@ def coq_case(n, km, settings, swk, vars_, series, obs, err, len_unmodelled=None)
         o = (f"(Some (mk_obs {clist([fql(x) for x in obs['e']])} {clist([fql(x) for x in obs['p']])} {fql(obs['sum'])} "
              f"{fq(obs['head'])} {clist([fql(x) for x in obs['q']])} {clist([fql(x) for x in obs['k']])}))")
     return f"check_report (1#1000000000) (mk_in {cnat(n)} {fq(km)} {conv} {fq(swk)} {vs} {ts}) {o} {cnat(err)}"
+
+
+def coq_fb_case(d):
+    s = d["settings"]
+    conv = (f"{{| kcals_daily := {fq(s['kcals_daily'])}; fat_daily := {fq(s['fat_daily'])}; "
+            f"protein_daily := {fq(s['protein_daily'])}; population := {fq(s['population'])} |}}")
+    a, v, n = d["aux"], d["vars"], d["n"]
+    order = [a["stored_food_feed"], v["crops_food_feed"], a["seaweed_feed"], a["cellulosic_sugar_feed"], a["methane_scp_feed"],
+             a["stored_food_biofuel"], v["crops_food_biofuel"], a["seaweed_biofuel"], a["cellulosic_sugar_biofuel"],
+             a["methane_scp_biofuel"]]
+    vs = clist([coq_varlist(x, n) for x in order])
+    fb = d["fb"]
+    return (f"check_fb (1#1000000000) (mk_fb {cnat(n)} {fq(d['km'])} {conv} {fq(d['sw_kcals'])} {vs}) "
+            f"{clist([fql(x) for x in fb['per']])} {fql(fb['feed_ke'])} {fql(fb['bio_ke'])} {fql(fb['feed_back'])} {fql(fb['bio_back'])}")
+
+
+FB_NAMES = {1: "per-food feed/biofuel kcals-equivalent series", 2: "feed_sum_kcals_equivalent", 3: "biofuels_sum_kcals_equivalent",
+            4: "feed sum converted back", 5: "biofuel sum converted back"}
 
 
 def explain(code):
@@ -316,7 +337,7 @@ def real_runs(ctx, coq=True):
         runs.append({"chain": [{"iso3": iso, "opt": o, "title": f"c04_same_title_{j}"} for iso, o in ch]})
     want = 4 if ctx.quick else 30
     res = ctx.run_impl("c04_audit", {"runs": runs, "want_data": want, "procs": lib.NCPU if not ctx.quick else 6})["runs"]
-    terms, meta = [], []
+    terms, meta, fb_terms = [], [], []
     stats = {"runs": len(runs), "rounds": 0, "failed_runs": 0, "to_humans": 0, "to_animals": 0, "seaweed": 0, "scp": 0, "cs": 0,
              "split_both": 0, "max_rel_below_optimum": 0.0, "horizons": {}}
     failed = []
@@ -366,6 +387,7 @@ def real_runs(ctx, coq=True):
                 d = rd["data"]
                 terms.append(coq_case(d["n"], d["km"], d["settings"], d["sw_kcals"], d["vars"], d["series"], d["obs"], 0))
                 meta.append((spec, rd))
+                fb_terms.append(coq_fb_case(d))
     if len(failed) > 0:
         ctx.notes["runs_not_completed"] = failed[:40]
     ctx.notes["captured_runs"] = stats
@@ -383,7 +405,20 @@ def real_runs(ctx, coq=True):
                 ctx.violation(f"C04:tie:{NAMES.get(code // 100, code)}@captured",
                               f"model and implementation disagree on captured round {rd['title']}: {explain(code)}",
                               {"kind": "tie-broken", "spec": spec, "round": rd["title"], "code": code})
-    ctx.notes["correspondence_captured"] = {"rounds": len(terms), "disagreements": nbad}
+    fcodes = ctx.coq_codes("c04fb", IMPORTS, fb_terms, per_file=3, timeout=1500) if fb_terms else []
+    nbad_fb = 0
+    for code, (spec, rd) in zip(fcodes, meta):
+        if code != 0:
+            nbad_fb += 1
+            if nbad_fb <= 3:
+                what = f"{FB_NAMES.get(code // 100, code)} #{code % 100}"
+                ctx.tie_ok = False
+                ctx.broken.append(f"correspondence of the feed/biofuel hand-off sums on captured round {rd['title']}: {what}")
+                ctx.violation(f"C04:tie:{FB_NAMES.get(code // 100, code)}@captured",
+                              f"model and implementation disagree on captured round {rd['title']}: {what}",
+                              {"kind": "tie-broken", "spec": spec, "round": rd["title"], "code": code})
+    ctx.notes["correspondence_captured"] = {"rounds": len(terms), "disagreements": nbad,
+                                            "feed_biofuel_sum_rounds": len(fb_terms), "feed_biofuel_disagreements": nbad_fb}
     for run_ in res[:2]:
         if run_["rounds"] and "chain" not in run_["spec"]:
             rd = run_["rounds"][-1]
@@ -396,7 +431,8 @@ def real_runs(ctx, coq=True):
 def key_site(kind):
     return {"conversion": "Extractor.to_monthly_list", "headline": "Interpreter.get_percent_people_fed",
             "rounded": "Interpreter.correct_and_validate_rounding_errors",
-            "optimum": "Optimizer.run_optimizations_on_constraints", "csv": "Interpreter.interpret_results",
+            "optimum": "Optimizer.run_optimizations_on_constraints",
+            "feed-link": "Interpreter.calculate_feed_and_biofuels", "csv": "Interpreter.interpret_results",
             "split": "Extractor.to_monthly_list_outdoor_crops_kcals"}.get(kind, "run")
 
 
